@@ -310,6 +310,10 @@ class API:
 
             external_types_builder = ExternalTypesBuilder(self._external_types_model)
 
+            get_config(self._config, "generate")
+            for target in self.configured_targets:
+                for generator in target.generator_instances:
+                    get_config(self._generate_config, generator.key, "generate")
             for target in self.configured_targets:
                 target.register_external_types(external_types_builder)
                 target.configure(self._generate_config)
